@@ -1,7 +1,7 @@
 /-
 C17 — document level of the round trip: `api2 (fromV3 (toV3 d))` against `api2 d` on the simple fragment
-(documents without shared parameters whose operations take inline query / header / path parameters, outside
-every exclusion class). Theorems only.
+(documents whose shared parameters are query / header / path parameters and whose operations and path items take
+such parameters inline or by reference, outside every exclusion class). Theorems only.
 -/
 import KinModel.Props.C17
 namespace KinModel.Conv
@@ -23,7 +23,11 @@ theorem params_roundtrip {V : Type} (l : List (PRef2 V)) (h : l.all paramSimpleB
     simp only [List.all_cons, Bool.and_eq_true] at h
     obtain ⟨l', h1, h2⟩ := ih h.2
     cases q with
-    | ref k n => simp [paramSimpleBack] at h
+    | ref k n =>
+      have hq := h.1
+      refine ⟨.ref (fromV3RK (toV3RK k)) n :: l', ?_, ?_⟩
+      · simp [List.mapM_cons, toV3PS, fromV3PRefO, h1]
+      · cases k <;> simp_all [paramSimpleBack, inputA2, toV3RK, fromV3RK, absRK2, RK.isV2]
     | val p =>
       have hq := h.1
       simp only [paramSimpleBack, Bool.and_eq_true, bne_iff_ne, ne_eq] at hq
@@ -140,6 +144,45 @@ theorem paths_roundtrip {V : Type} (l : List (Path2 V)) (h : l.all pathSimpleBac
       | true => simpa using h3
       | false => simp [h3, hpath, hpp]
 
+/-- shared query / header / path parameters come back under their keys with the same content -/
+theorem shared_roundtrip {V : Type} (l : List (String × PRef2 V)) (h : l.all (fun kp => sharedSimpleBack kp.2) = true) :
+    (l.map (fun kp => (kp.1, toV3PS kp.2))).mapM
+        (fun (kp : String × PRef3 V) => (fromV3PRefO [] kp.2).map (fun p => (kp.1, p))) =
+      some (l.map (fun kp => (kp.1, backPS kp.2))) ∧
+    (l.map (fun kp => (kp.1, backPS kp.2))).map (fun (kp : String × PRef2 V) => (kp.1, inputA2 kp.2)) =
+      l.map (fun (kp : String × PRef2 V) => (kp.1, inputA2 kp.2)) := by
+  have hel : ∀ kp ∈ l, ∃ q, kp.2 = .val q ∧ q.loc ≠ "body" ∧ q.loc ≠ "formData" ∧ itemsOKBack q.items = true ∧
+      noBinary2 (paramSchema2 q) = true := by
+    intro kp hkp
+    have := List.all_eq_true.mp h kp hkp
+    cases hp : kp.2 with
+    | ref k n => simp [sharedSimpleBack, hp] at this
+    | val q =>
+      simp only [sharedSimpleBack, hp, Bool.and_eq_true, bne_iff_ne, ne_eq] at this
+      exact ⟨q, rfl, this.1.1.1, this.1.1.2, this.1.2, this.2⟩
+  constructor
+  · have hm := mapM_some
+      (fun (kp : String × PRef3 V) => (fromV3PRefO [] kp.2).map (fun p => (kp.1, p)))
+      (fun (kp : String × PRef3 V) => (kp.1, fromV3PRef kp.2))
+      (l.map (fun kp => (kp.1, toV3PS kp.2)))
+      (by
+        intro a ha
+        simp only [List.mem_map] at ha
+        obtain ⟨kp, hkp, rfl⟩ := ha
+        obtain ⟨q, hq, _, _, _, hnb⟩ := hel kp hkp
+        simp only [hq, toV3PS, fromV3PRefO, fromV3ParamO_eq q hnb, Option.map_some, fromV3PRef])
+    rw [hm, List.map_map]
+    congr 1
+    apply List.map_congr_left
+    intro kp hkp
+    obtain ⟨q, hq, _⟩ := hel kp hkp
+    simp only [Function.comp, hq, toV3PS, fromV3PRef, backPS]
+  · rw [List.map_map]
+    apply List.map_congr_left
+    intro kp hkp
+    obtain ⟨q, hq, h1, h2, h3, _⟩ := hel kp hkp
+    simp only [Function.comp, hq, backPS, roundtripParam q h1 h2 h3]
+
 theorem secs_roundtrip (l : List (String × Sec2)) (h : l.all (fun ks => secInFragment ks.2) = true) :
     ∃ l', mapSecs l = .ok l' ∧
       (l'.filterMap (fun (ks : String × Sec3) => match fromV3Sec ks.2 with | .ok t => some (ks.1, t) | _ => none)).map
@@ -204,8 +247,9 @@ theorem api2_roundtrip_simple {V : Type} (d : Doc2 V) (h : docSimpleBack d = tru
       (api2 d2).shared = (api2 d).shared ∧ (api2 d2).sharedResponses = (api2 d).sharedResponses ∧
       (api2 d2).defs = (api2 d).defs ∧ (api2 d2).security = (api2 d).security ∧
       (∀ x, x ∈ (api2 d2).servers ↔ x ∈ (api2 d).servers) := by
-  simp only [docSimpleBack, Bool.and_eq_true, List.isEmpty_iff, bne_iff_ne, ne_eq] at h
-  obtain ⟨⟨⟨⟨⟨⟨⟨hsimple, hparams⟩, hpaths⟩, hresps⟩, hnodup⟩, hdefs⟩, hsecs⟩, hhost, hschemes⟩ := h
+  simp only [docSimpleBack, Bool.and_eq_true, bne_iff_ne, ne_eq] at h
+  obtain ⟨⟨⟨⟨⟨⟨⟨hsimple, hparams, hpnodup⟩, hpaths⟩, hresps⟩, hnodup⟩, hdefs⟩, hsecs⟩, hhost, hschemes⟩ := h
+  obtain ⟨hsh1, hsh2⟩ := shared_roundtrip d.params hparams
   obtain ⟨secs, hsecs1, hsecs2⟩ := secs_roundtrip d.secs hsecs
   obtain ⟨paths2, hp1, hp2, hp3⟩ := paths_roundtrip d.paths hpaths
   obtain ⟨crs, hr1, hr2⟩ := responses_roundtrip d.produces d.responses hresps
@@ -213,7 +257,8 @@ theorem api2_roundtrip_simple {V : Type} (d : Doc2 V) (h : docSimpleBack d = tru
   have h3 := toV3Raw_simple d hsimple secs hsecs1
   refine ⟨_, ?_, h3, ?_, ?_⟩
   · exact {
-      loc := fromV3Servers (toV3Servers d.loc), consumes := [], produces := [], params := [] ++ [] ++ [],
+      loc := fromV3Servers (toV3Servers d.loc), consumes := [], produces := [],
+      params := dedupLast ([] ++ d.params.map (fun kp => (kp.1, backPS kp.2)) ++ []),
       responses := crs,
       defs := ((d.defs.map (fun ks => (ks.1, ({ formName := none, schema := toV3S ks.2 } : CSchema V)))).filter
           (fun kc => !isBinary kc.2.schema)).filterMap (fun kc => (fromV3SO [] kc.2.schema).map (fun s => (kc.1, s))),
@@ -224,10 +269,14 @@ theorem api2_roundtrip_simple {V : Type} (d : Doc2 V) (h : docSimpleBack d = tru
         (d.defs.map (fun ks => (ks.1, ({ formName := none, schema := toV3S ks.2 } : CSchema V))))) = [] := hbinfmt
     have e2 : (List.filter (fun (x : String × CSchema V) => isBinary x.2.schema)
         (d.defs.map (fun ks => (ks.1, ({ formName := none, schema := toV3S ks.2 } : CSchema V))))) = [] := hbin
-    simp only [e1, e2, List.map_nil, hp1, hr1, List.mapM_nil, List.flatMap_nil]
+    simp only [e1, e2, List.map_nil, hp1, hr1, hsh1, List.flatMap_nil]
     rfl
   · refine ⟨hp2, hp3, ?_, hr2, hdefs2, hsecs2, ?_⟩
-    · simp [api2, hparams]
+    · have hnd : nodupKeys (d.params.map (fun kp => (kp.1, backPS kp.2))) = true := by
+        rw [nodupKeys_map]; exact hpnodup
+      show List.map _ (dedupLast ([] ++ d.params.map (fun kp => (kp.1, backPS kp.2)) ++ [])) = _
+      simp only [List.nil_append, List.append_nil, dedupLast_nodup _ hnd]
+      exact hsh2
     · intro x
       have hs : ∀ y ∈ d.loc.schemes, y = "http" ∨ y = "https" := by
         intro y hy
@@ -250,13 +299,13 @@ example :
     let r200 : RRef2 Nat := .val { desc := "ok", headers := [], schema := some (.ref RK.def2 "A") }
     let d : Doc2 Nat := {
       loc := { host := "api.example.com", basePath := "/v1", schemes := ["http", "https"] }, consumes := [], produces := [],
-      params := [], responses := [("nf", .val { desc := "not found", headers := [], schema := none })],
+      params := [("lim", .val { q with name := "limit" }), ("A", .val idp)], responses := [("nf", .val { desc := "not found", headers := [], schema := none })],
       defs := [("A", .node { ty := some "object", req := ["b"] }
                   [(Slot.prop "b", .ref RK.def2 "B"), (Slot.addl, .node { ty := some "integer" } [])]),
                ("B", .node { ty := some "string", xnull := true } [])],
       secs := [("o", { type := "oauth2", flow := "accessCode", authUrl := "https://a/x", tokenUrl := "https://a/t" })],
-      paths := [{ path := "/p/{id}", params := [.val idp],
-                  ops := [{ method := "get", opId := "g", consumes := [], produces := [], params := [.val q],
+      paths := [{ path := "/p/{id}", params := [.ref RK.par2 "A"],
+                  ops := [{ method := "get", opId := "g", consumes := [], produces := [], params := [.val q, .ref RK.par2 "lim"],
                             responses := [("200", r200), ("302", r302), ("404", .ref RK.resp2 "nf")] }] }] }
     docSimpleBack d = true := by
   decide
